@@ -289,7 +289,7 @@ StateAndCovariance = namedtuple("StateAndCovariance", ["state", "covariance"])
 
 
 def assert_valid_covariance(
-    covariance: NDArray, *, name: str = "Covariance", negative_tol: float = -1e-15
+    covariance: NDArray, *, name: str = "Covariance", negative_tol: float = -1e-12
 ):
     """
     Check that the covariance array is well formed:
@@ -301,7 +301,12 @@ def assert_valid_covariance(
     assert np.allclose(covariance, covariance.T)
 
     covariance_eigenvalues = np.linalg.eig(covariance)[0]
-    if np.any(covariance_eigenvalues < negative_tol):
+    # Rounding error in the eigenvalues grows with the magnitude of the matrix,
+    # so the tolerance is relative to the largest eigenvalue (absolute below 1)
+    eigenvalue_scale = max(
+        1.0, float(np.max(np.abs(covariance_eigenvalues), initial=0.0))
+    )
+    if np.any(covariance_eigenvalues < negative_tol * eigenvalue_scale):
         # negative definite matrix is not a valid representation of uncertainty
         raise AssertionError(
             f"Negative {str(name)}:\n{covariance}\nEigen Values: {min(covariance_eigenvalues)}\n{covariance_eigenvalues}"
